@@ -9,7 +9,6 @@ import (
 	"errors"
 	"runtime"
 	"strings"
-	"sync"
 
 	mwdb "massnet.org/mass-wallet/masswallet/db"
 )
@@ -21,7 +20,7 @@ type SimDB struct {
 	S     *Sched
 	Inst  *Instance
 
-	mu       sync.Mutex
+	mu       hmu
 	Commits  int // successful write commits
 	Calls    int // counted storage calls (begin/get/put/delete/iter/commit) since ArmReset
 	CallLog  []string
@@ -42,11 +41,14 @@ type SimDB struct {
 	OnCommit func(n int)
 }
 
+//go:norace
 func NewSimDB(inner mwdb.DB, s *Sched, inst *Instance) *SimDB {
 	return &SimDB{inner: inner, S: s, Inst: inst, FiredKinds: map[string]int{}}
 }
 
 // fault decides whether the current call fails.
+//
+//go:norace
 func (d *SimDB) fault(kind string) bool {
 	d.S.Work()
 	d.mu.Lock()
@@ -69,6 +71,7 @@ func (d *SimDB) fault(kind string) bool {
 	return false
 }
 
+//go:norace
 func (d *SimDB) Heal() {
 	d.mu.Lock()
 	d.FailAt = 0
@@ -76,6 +79,7 @@ func (d *SimDB) Heal() {
 	d.mu.Unlock()
 }
 
+//go:norace
 func (d *SimDB) Close() error {
 	err := d.inner.Close()
 	d.mu.Lock()
@@ -84,6 +88,7 @@ func (d *SimDB) Close() error {
 	return err
 }
 
+//go:norace
 func (d *SimDB) BeginTx() (mwdb.DBTransaction, error) {
 	g := d.S.Current()
 	if g != nil {
@@ -103,6 +108,7 @@ func (d *SimDB) BeginTx() (mwdb.DBTransaction, error) {
 	return &simTx{d: d, w: tx, r: tx, g: g}, nil
 }
 
+//go:norace
 func (d *SimDB) BeginReadTx() (mwdb.ReadTransaction, error) {
 	g := d.S.Current()
 	rtx, err := d.inner.BeginReadTx()
@@ -112,7 +118,9 @@ func (d *SimDB) BeginReadTx() (mwdb.ReadTransaction, error) {
 	t := &simTx{d: d, r: rtx, g: g, readOnly: true}
 	if g != nil && g.gateReads {
 		t.gated = true
-		d.S.Gate("db.read.begin")
+		if d.Inst == nil || !d.Inst.walletMutexHeld() {
+			d.S.Gate("db.read.begin")
+		}
 	}
 	return t, nil
 }
@@ -134,6 +142,7 @@ type simTx struct {
 	finished bool
 }
 
+//go:norace
 func (t *simTx) wrap(b mwdb.Bucket) mwdb.Bucket {
 	if b == nil {
 		return nil
@@ -141,11 +150,18 @@ func (t *simTx) wrap(b mwdb.Bucket) mwdb.Bucket {
 	return &simBucket{t: t, b: b}
 }
 
+//go:norace
 func (t *simTx) TopLevelBucket(name string) mwdb.Bucket { return t.wrap(t.r.TopLevelBucket(name)) }
+
+//go:norace
 func (t *simTx) FetchBucket(meta mwdb.BucketMeta) mwdb.Bucket {
 	return t.wrap(t.r.FetchBucket(meta))
 }
+
+//go:norace
 func (t *simTx) BucketNames() ([]string, error) { return t.r.BucketNames() }
+
+//go:norace
 func (t *simTx) CreateTopLevelBucket(name string) (mwdb.Bucket, error) {
 	b, err := t.w.CreateTopLevelBucket(name)
 	if err != nil {
@@ -153,8 +169,11 @@ func (t *simTx) CreateTopLevelBucket(name string) (mwdb.Bucket, error) {
 	}
 	return t.wrap(b), nil
 }
+
+//go:norace
 func (t *simTx) DeleteTopLevelBucket(name string) error { return t.w.DeleteTopLevelBucket(name) }
 
+//go:norace
 func (t *simTx) Rollback() error {
 	if t.readOnly {
 		return t.r.Rollback()
@@ -168,6 +187,7 @@ func (t *simTx) Rollback() error {
 	return err
 }
 
+//go:norace
 func (t *simTx) Commit() error {
 	if t.readOnly {
 		return nil
@@ -219,12 +239,17 @@ type simBucket struct {
 	b mwdb.Bucket
 }
 
+//go:norace
 func (b *simBucket) readGate(what string) {
 	if b.t.gated && b.t.g != nil {
+		if inst := b.t.d.Inst; inst != nil && inst.walletMutexHeld() {
+			return // never park inside a critical section of the wallet
+		}
 		b.t.d.S.Gate("db.read." + what)
 	}
 }
 
+//go:norace
 func (b *simBucket) NewBucket(name string) (mwdb.Bucket, error) {
 	nb, err := b.b.NewBucket(name)
 	if err != nil {
@@ -232,6 +257,8 @@ func (b *simBucket) NewBucket(name string) (mwdb.Bucket, error) {
 	}
 	return &simBucket{t: b.t, b: nb}, nil
 }
+
+//go:norace
 func (b *simBucket) Bucket(name string) mwdb.Bucket {
 	nb := b.b.Bucket(name)
 	if nb == nil {
@@ -239,20 +266,30 @@ func (b *simBucket) Bucket(name string) mwdb.Bucket {
 	}
 	return &simBucket{t: b.t, b: nb}
 }
+
+//go:norace
 func (b *simBucket) BucketNames() ([]string, error) { return b.b.BucketNames() }
+
+//go:norace
 func (b *simBucket) DeleteBucket(name string) error { return b.b.DeleteBucket(name) }
+
+//go:norace
 func (b *simBucket) Put(key, value []byte) error {
 	if b.t.d.fault("put") {
 		return ErrInjectedDB
 	}
 	return b.b.Put(key, value)
 }
+
+//go:norace
 func (b *simBucket) Delete(key []byte) error {
 	if b.t.d.fault("delete") {
 		return ErrInjectedDB
 	}
 	return b.b.Delete(key)
 }
+
+//go:norace
 func (b *simBucket) Get(key []byte) ([]byte, error) {
 	b.readGate("get")
 	if b.t.d.fault("get") {
@@ -260,7 +297,11 @@ func (b *simBucket) Get(key []byte) ([]byte, error) {
 	}
 	return b.b.Get(key)
 }
+
+//go:norace
 func (b *simBucket) Clear() error { return b.b.Clear() }
+
+//go:norace
 func (b *simBucket) GetByPrefix(p []byte) ([]*mwdb.Entry, error) {
 	b.readGate("prefix")
 	if b.t.d.fault("get") {
@@ -268,7 +309,11 @@ func (b *simBucket) GetByPrefix(p []byte) ([]*mwdb.Entry, error) {
 	}
 	return b.b.GetByPrefix(p)
 }
+
+//go:norace
 func (b *simBucket) GetBucketMeta() mwdb.BucketMeta { return b.b.GetBucketMeta() }
+
+//go:norace
 func (b *simBucket) NewIterator(slice *mwdb.Range) mwdb.Iterator {
 	b.readGate("iter")
 	it := b.b.NewIterator(slice)
@@ -281,13 +326,18 @@ type simIter struct {
 	failed bool
 }
 
+//go:norace
 func (i *simIter) Release() { i.it.Release() }
+
+//go:norace
 func (i *simIter) Error() error {
 	if i.failed {
 		return ErrInjectedDB
 	}
 	return i.it.Error()
 }
+
+//go:norace
 func (i *simIter) Seek(key []byte) bool {
 	i.b.readGate("seek")
 	if i.failed {
@@ -295,6 +345,8 @@ func (i *simIter) Seek(key []byte) bool {
 	}
 	return i.it.Seek(key)
 }
+
+//go:norace
 func (i *simIter) Next() bool {
 	i.b.readGate("next")
 	if i.failed {
@@ -306,11 +358,17 @@ func (i *simIter) Next() bool {
 	}
 	return i.it.Next()
 }
-func (i *simIter) Key() []byte   { return i.it.Key() }
+
+//go:norace
+func (i *simIter) Key() []byte { return i.it.Key() }
+
+//go:norace
 func (i *simIter) Value() []byte { return i.it.Value() }
 
 // callSite returns the innermost wallet-code frames of the caller (function
 // names only), used to tell injected-fault findings apart by call site.
+//
+//go:norace
 func callSite() string {
 	pcs := make([]uintptr, 24)
 	n := runtime.Callers(3, pcs)
